@@ -85,7 +85,8 @@ def generate(seed, tier, index):
         frag_choices = ["whole", "fixed:1", "fixed:7", "random", "coalesce"]
     return {"world": world, "steps": steps, "ntcp": ntcp, "tty": tty, "stall": stall,
             # updates come from two devices (which one: bit k of the pattern for the k-th update) or from one
-            "dev_pattern": rng.randrange(1, 1 << 16) if rng.random() < 0.5 else 0, "frag_choices": frag_choices, "blob_peers": blob_peers,
+            "dev_pattern": rng.randrange(1, 1 << 16) if rng.random() < 0.5 else 0,
+            "repeat_pattern": rng.randrange(1, 1 << 16) if rng.random() < 0.5 else 0, "frag_choices": frag_choices, "blob_peers": blob_peers,
             "pool": {"workers": rng.randint(2, 6), "jitter": rng.choice(["none", "small", "small", "wide"])},
             "net": {"latency": rng.choice(["zero", "lan", "slow", "bursty"]), "frag": rng.choice(frag_choices),
                     "hwm": rng.choice([0, 1, 64, 65536])},
@@ -268,9 +269,22 @@ def execute_clientconn(scen, sim, viol, probes, facts):
         sim.do(srv_peers[0].transport.inp.stall, 30.0)
         probes["stalled_connection"] = 1
 
+    rep = scen.get("repeat_pattern", 0)
+    last_val = [None]
+
     def one():
         counter[0] += 1
-        msg = M.NewTextVector(device="D", name="TXT", children=(M.one_parts.OneText(name="T0", value=f"u{counter[0]}"),))
+        val = f"u{counter[0]}" if counter[0] % 4 else "g"  # every fourth message is a getProperties
+        if last_val[0] is not None and (rep >> (counter[0] % 16)) & 1:
+            # the application sends the very same request again (a repeated guide pulse, a re-sent getProperties): a message
+            # byte-identical to the one before it is still a message of its own
+            val = last_val[0]
+            probes["identical_message_repeated"] = probes.get("identical_message_repeated", 0) + 1
+        last_val[0] = val
+        if val == "g":
+            msg = M.GetProperties(version="1.7", device="D")
+        else:
+            msg = M.NewTextVector(device="D", name="TXT", children=(M.one_parts.OneText(name="T0", value=val),))
         sent.append(view_of_message(msg))
         h.send_message(msg)
 
